@@ -882,13 +882,75 @@ func checkAuthorizeDecision(r *Run, p *Prog) {
 		path := succ(vis, q)
 		r.ObPath("C05.R6.decide", "Gate.Authorize succeeds only for the current holder or a gate that outranks it", p.Position(auth.Pos()), len(holder) > 0 && len(outranks) > 0 && path == nil,
 			"the resource is handed out on a path that established neither: a writer that is not in control writes", path)
-		var starts []Point
-		for e := range exclusive {
-			starts = append(starts, Point{e.B.Succs[e.Succ], -1})
+		// under exclusive concurrency only the holder: an "outranks" edge counts only on a
+		// path on which "not exclusive" was established (by an earlier edge or the same one)
+		nonExclusive := c.EdgesEstablishing(func(atom ast.Expr, val bool) bool {
+			be, ok := ast.Unparen(atom).(*ast.BinaryExpr)
+			if !ok || (be.Op != token.EQL && be.Op != token.NEQ) {
+				return false
+			}
+			isExcl := func(e ast.Expr) bool {
+				sel, ok := ast.Unparen(e).(*ast.SelectorExpr)
+				return ok && sel.Sel.Name == "ConcurrencyExclusive"
+			}
+			if !isExcl(be.X) && !isExcl(be.Y) {
+				return false
+			}
+			return (be.Op == token.EQL) != val
+		})
+		type st struct {
+			pt     Point
+			nonExc bool
 		}
-		q2, vis2 := c.ReachAvoiding(starts, holder, nil)
-		p2 := succ(vis2, q2)
-		r.ObPath("C05.R6.decide", "under exclusive concurrency Gate.Authorize succeeds only for the current holder", p.Position(auth.Pos()), len(starts) > 0 && p2 == nil,
+		seen := map[st]bool{}
+		parent := map[st]st{}
+		start := st{c.Entry(), false}
+		seen[start] = true
+		work := []st{start}
+		var p2 []string
+		for len(work) > 0 && p2 == nil {
+			cur := work[len(work)-1]
+			work = work[:len(work)-1]
+			b, idx := cur.pt.B, cur.pt.I
+			if idx >= 0 && idx < len(b.Nodes) {
+				if ret, ok := b.Nodes[idx].(*ast.ReturnStmt); ok {
+					if mayReturnNilError(auth, ret) {
+						for x, ok := cur, true; ok && len(p2) < 30; x, ok = parent[x] {
+							if x.pt.I >= 0 && x.pt.I < len(x.pt.B.Nodes) {
+								p2 = append([]string{p.Position(x.pt.B.Nodes[x.pt.I].Pos())}, p2...)
+							}
+						}
+					}
+					continue
+				}
+			}
+			push := func(to st) {
+				if !seen[to] {
+					seen[to] = true
+					parent[to] = cur
+					work = append(work, to)
+				}
+			}
+			if idx+1 < len(b.Nodes) {
+				push(st{Point{b, idx + 1}, cur.nonExc})
+				continue
+			}
+			for si, succ := range b.Succs {
+				e := edge{b, si}
+				ne := cur.nonExc
+				if nonExclusive[e] {
+					ne = true
+				}
+				if exclusive[e] {
+					ne = false
+				}
+				if holder[e] || (outranks[e] && ne) {
+					continue
+				}
+				push(st{Point{succ, -1}, ne})
+			}
+		}
+		r.ObPath("C05.R6.decide", "under exclusive concurrency Gate.Authorize succeeds only for the current holder", p.Position(auth.Pos()), len(exclusive) > 0 && p2 == nil,
 			"with exclusive concurrency an equal-authority gate that is not the holder must be refused", p2)
 	}
 	og := p.Func(ctlPkg, "Controller", "OpenGate")
